@@ -3,6 +3,7 @@ package main
 import (
 	"bytes"
 	"fmt"
+	"io"
 	"strings"
 
 	cupcake "github.com/alibaba/RedisShake/pkg/libs/cupcake/rdb"
@@ -95,6 +96,18 @@ func genC11(g *gen) {
 			}
 		}
 		g.emit("footer %s %s", hx(cov), hx(tr[:g.r.Intn(8)]))
+		// the same intact / damaged stream reaching the loader in pieces (short reads, byte by byte, data together with EOF,
+		// interleaved empty reads): the running CRC must cover every byte exactly once, however it was delivered
+		for k := 0; k < 6; k++ {
+			dl := "x/" + deliveryModes[g.r.Intn(len(deliveryModes))] + fmt.Sprint(g.r.Intn(1000))
+			big := g.bytes(20 + g.r.Intn(300))
+			bs := digest.New()
+			bs.Write(big)
+			g.emit("footer %s %s %s", hx(big), hx(bs.Sum(nil)), dl)
+			e := append([]byte{}, big...)
+			e[g.r.Intn(len(e))] ^= byte(1 << uint(g.r.Intn(8)))
+			g.emit("footer %s %s %s", hx(e), hx(bs.Sum(nil)), dl)
+		}
 		// structured wrong trailers: the special values of a 64-bit comparison
 		for _, t := range specialTrailers(tr) {
 			g.emit("footer %s %s", hx(cov), hx(t))
@@ -190,7 +203,11 @@ func runC11(f []string) string {
 		return r
 	case "footer":
 		cov, tr := unhx(f[1]), unhx(f[2])
-		l := rdb.NewLoader(bytes.NewReader(append(append([]byte{}, cov...), tr...)))
+		var src io.Reader = bytes.NewReader(append(append([]byte{}, cov...), tr...))
+		if len(f) > 3 {
+			src = newDelivery(append(append([]byte{}, cov...), tr...), f[3])
+		}
+		l := rdb.NewLoader(src)
 		if err := l.VerifSkip(len(cov)); err != nil {
 			return "skiperr"
 		}
